@@ -339,6 +339,53 @@ impl FunctionCompiler<'_> {
 
         let bytes = self.expr_to_const_data(loc, value)?;
 
+        // the value might be a narrower number than the annotation of the global (e.g.
+        // `x : i64 : comptime { some_i32 }`): the data of the global has the size of the global's
+        // type, so the number has to be converted just as it is for a local
+        let bytes = match (
+            self.tys[loc.wrap()][value].get_final_ty().into_number_type(),
+            self.tys.sig(loc.wrap()).get_final_ty().into_number_type(),
+        ) {
+            (Some(from), Some(to))
+                if bytes.len() == from.ty.bytes() as usize && from.ty.bytes() < to.ty.bytes() =>
+            {
+                let endianness = self.module.isa().endianness();
+                let mut raw = [0u8; 16];
+                match endianness {
+                    Endianness::Little => raw[..bytes.len()].copy_from_slice(&bytes),
+                    Endianness::Big => raw[16 - bytes.len()..].copy_from_slice(&bytes),
+                }
+                let unsigned = match endianness {
+                    Endianness::Little => u128::from_le_bytes(raw),
+                    Endianness::Big => u128::from_be_bytes(raw),
+                };
+                if from.float && to.float {
+                    (f32::from_bits(unsigned as u32) as f64)
+                        .into_bytes(endianness, to.bit_width())
+                        .into_boxed_slice()
+                } else if !from.float && !to.float {
+                    let shift = 128 - from.ty.bits();
+                    let extended = if from.signed {
+                        (((unsigned << shift) as i128) >> shift) as u128
+                    } else {
+                        unsigned
+                    };
+                    let all = match endianness {
+                        Endianness::Little => extended.to_le_bytes(),
+                        Endianness::Big => extended.to_be_bytes(),
+                    };
+                    let n = to.ty.bytes() as usize;
+                    match endianness {
+                        Endianness::Little => all[..n].into(),
+                        Endianness::Big => all[16 - n..].into(),
+                    }
+                } else {
+                    bytes
+                }
+            }
+            _ => bytes,
+        };
+
         let global = self.create_global_data(
             &loc.to_mangled_name(self.mod_dir, self.interner),
             false,
